@@ -379,6 +379,11 @@ def parse_verus(rc, out, err, linemap, fnindex, sc):
         ob["src_text"] = prim.get("text", "")
         ob["origin"] = po.get("o")
         res["failed"].append(ob)
+    if res["verified"] is None and res["failed"]:
+        # verification did not run (front-end / VIR error): these are not proof obligations
+        for ob in res["failed"]:
+            res["compile_errors"].append({"message": ob["message"], "code": None, "spans": [(ob.get("where"), 0, {})]})
+        res["failed"] = []
     if res["verified"] is None and not res["failed"] and not res["compile_errors"] and not res["tool_error"]:
         res["tool_error"] = "verus produced no result (rc=%s): %s" % (rc, err[-400:])
     return res
